@@ -236,7 +236,9 @@ func runBatch(spec batchSpec, tier string, batch uint64, deadline time.Time, onC
 						// (a worker that was busy when the limit struck is a slow run on a loaded machine - trouble of
 						// the harness, exit 2; a worker that sat idle is blocked. Calls that spin are found by the
 						// watchdogs inside the worker: per call, per scheduler step.)
-						if _, _, e2 := spawnRun(rs, tier, it.seed, "", false, 90*time.Second); e2 != nil && strings.Contains(e2.Error(), "watchdog") && !strings.Contains(e2.Error(), "busy") {
+						// (SCHED only; the sequential engines have no long runs, and a rule that spins inside one of the
+						// harness's own direct calls is found here and nowhere else)
+						if _, _, e2 := spawnRun(rs, tier, it.seed, "", false, 90*time.Second); e2 != nil && strings.Contains(e2.Error(), "watchdog") && !(rs.Engine == "sched" && strings.Contains(e2.Error(), "busy")) {
 							hung++
 						}
 					}
